@@ -11,6 +11,7 @@ import (
 
 	"github.com/postalsys/muti-metroo/internal/agent"
 	"github.com/postalsys/muti-metroo/internal/crypto"
+	"github.com/postalsys/muti-metroo/internal/health"
 	"github.com/postalsys/muti-metroo/internal/identity"
 
 	"github.com/postalsys/muti-metroo/internal/protocol"
@@ -112,6 +113,15 @@ func runTunnels(prop string) {
 		collisionFree = true
 	}
 	m := tunnelMesh(collisionFree, 5)
+	if prop == "C03" {
+		// every exit also answers UDP_OPEN and ICMP_OPEN (crafted opens with degenerate keys)
+		for _, nd := range m.Nodes {
+			if nd.Cfg.Exit.Enabled {
+				nd.Cfg.UDP.Enabled = true
+				nd.Cfg.ICMP.Enabled = true
+			}
+		}
+	}
 	ts := NewTunnelSet(m)
 	maxBytes := 200_000
 	if prop == "C07" && simrt.Chance(1, 8, "huge") {
@@ -139,6 +149,12 @@ func runTunnels(prop string) {
 		u := &Tunnel{Kind: "udp", Ingress: 0, Exit: m.TunnelExit, Up: 1 + simrt.Choose(30, "udpcount")}
 		ts.Add(u)
 		simrt.Probe("udp_tunnel")
+	}
+	if collisionFree && prop != "C07" && simrt.Chance(1, 3, "icmp-tunnel") {
+		for q := 1 + simrt.Choose(2, "icmpsessions"); q > 0; q-- {
+			ts.Add(&Tunnel{Kind: "icmp", Ingress: 0, Exit: m.TunnelExit, Up: 1 + simrt.Choose(24, "icmpcount")})
+		}
+		simrt.Probe("icmp_tunnel")
 	}
 	if (prop == "C16" || prop == "C07") && collisionFree && simrt.Chance(1, 8, "stall-scenario") {
 		// a slow reader on one tunnel while a sibling on the same connections
@@ -230,13 +246,27 @@ func (ts *TunnelSet) inspectData(ev *FrameEvent) {
 	if len(ev.Payload) > protocol.MaxPayloadSize {
 		simrt.Failf("frame-payload-too-large", "frame payload exceeds 16384 bytes", "%s", ev)
 	}
-	if ev.Type != protocol.FrameStreamData && ev.Type != protocol.FrameUDPDatagram {
+	if ev.Type != protocol.FrameStreamData && ev.Type != protocol.FrameUDPDatagram && ev.Type != protocol.FrameICMPEcho {
 		return
 	}
 	ts.DataFrames++
 	p := ev.Payload
 	if ev.Type == protocol.FrameUDPDatagram {
 		simrt.Probe("c04_udp_datagram_inspected")
+	}
+	if ev.Type == protocol.FrameICMPEcho {
+		simrt.Probe("c04_icmp_echo_inspected")
+		for i := 0; i+8 <= len(p); i++ {
+			if id, ok := ts.markers[binary.LittleEndian.Uint64(p[i:])]; ok {
+				simrt.Failf("plaintext-on-mesh-link", "application bytes visible in a relayed frame", "frame %s carries plaintext of tunnel %d at payload offset %d", ev, id, i)
+			}
+		}
+		if e, err := protocol.DecodeICMPEcho(p); err != nil {
+			simrt.Failf("data-frame-not-sealed", "ICMP_ECHO frame on a mesh link does not decode", "%s: %v", ev, err)
+		} else if len(e.Data) < 28 {
+			simrt.Failf("data-frame-not-sealed", "echo payload shorter than nonce+tag", "%s", ev)
+		}
+		return
 	}
 	for i := 0; i+8 <= len(p); i++ {
 		if id, ok := ts.markers[binary.LittleEndian.Uint64(p[i:])]; ok {
@@ -253,6 +283,10 @@ func (ts *TunnelSet) inspectData(ev *FrameEvent) {
 func (ts *TunnelSet) checkKey(t *Tunnel) {
 	if t.Kind == "udp" {
 		ts.checkUDPKey(t)
+		return
+	}
+	if t.Kind == "icmp" {
+		ts.checkICMPKey(t)
 		return
 	}
 	if t.key == nil {
@@ -335,6 +369,47 @@ func (ts *TunnelSet) checkUDPKey(t *Tunnel) {
 	simrt.Probe("c03_key_pair_compared_udp")
 	if !bytes.Equal(ek[:], k[:]) {
 		simrt.Failf("ends-derived-different-keys", "ingress and exit hold different session keys (udp)", "tunnel %d", t.ID)
+	}
+}
+
+// checkICMPKey: the ICMP session's key at the ingress equals the one at the exit.
+func (ts *TunnelSet) checkICMPKey(t *Tunnel) {
+	if len(t.hops) == 0 || !t.Opened {
+		simrt.Probe("c03_icmp_open_not_observed")
+		return
+	}
+	first, last := t.hops[0], t.hops[len(t.hops)-1]
+	ik := ts.m.Nodes[t.Ingress].A.VerifICMPIngressKeys()[first.ID]
+	var ek *[32]byte
+	if h := ts.m.Nodes[t.Exit].A.VerifICMPHandler(); h != nil {
+		if s := h.GetSession(last.ID); s != nil && s.GetSessionKey() != nil {
+			kk := s.GetSessionKey().Key()
+			ek = &kk
+		}
+	}
+	if ik == nil && ek == nil {
+		if _, present := ts.m.Nodes[t.Ingress].A.VerifICMPIngressKeys()[first.ID]; present {
+			simrt.Failf("tunnel-without-key", "opened tunnel has no session key at the ingress", "tunnel %d (icmp via %s)", t.ID, t.ICMPVia)
+		}
+	}
+	if ik == nil || ek == nil {
+		simrt.Probe("c03_responder_record_gone")
+		return
+	}
+	k := ik.Key()
+	if k == ([32]byte{}) {
+		simrt.Failf("tunnel-without-key", "opened tunnel has an all-zero session key at the ingress", "tunnel %d (icmp)", t.ID)
+	}
+	if ts.keys == nil {
+		ts.keys = map[[32]byte]int{}
+	}
+	if o, dup := ts.keys[k]; dup && o != t.ID {
+		simrt.Failf("tunnels-share-a-key", "two tunnels derived the same session key", "tunnels %d and %d", o, t.ID)
+	}
+	ts.keys[k] = t.ID
+	simrt.Probe("c03_key_pair_compared_icmp")
+	if !bytes.Equal(ek[:], k[:]) {
+		simrt.Failf("ends-derived-different-keys", "ingress and exit hold different session keys (icmp)", "tunnel %d", t.ID)
 	}
 }
 
@@ -473,6 +548,132 @@ func degenerateKeyChecks(m *Mesh) {
 			simrt.Failf("degenerate-key-accepted", "initiator produced a usable tunnel from a degenerate remote key", "ingress %s accepted an ack whose ephemeral key is %x (key present=%v)", m.Nodes[host].Name, key[:4], k != nil)
 		}
 	}
+	// (c) datagram tunnel kinds, initiator side: the crafted exit answers UDP_OPEN
+	// and ICMP_OPEN with a degenerate key (or, as a control, with a genuine one)
+	for q := simrt.Choose(3, "dgramrounds"); q > 0; q-- {
+		genuine := simrt.Chance(1, 4, "genuine-control")
+		key := degenerateKeys[simrt.Choose(len(degenerateKeys), "degen")]
+		if genuine {
+			_, pub, _ := crypto.GenerateEphemeralKeypair()
+			key = pub
+		}
+		kind := []string{"udp", "icmp-socks", "icmp-ping-api"}[simrt.Choose(3, "dgramkind")]
+		dst := net.IPv4(10, 77, 2, byte(q)).To4()
+		canary := []byte(fmt.Sprintf("degenerate-canary-%d-%s-0123456789abcdef", q, kind))
+		var openErr error
+		var g simrt.Group
+		nd := m.Nodes[host]
+		from := len(rp.Received)
+		g.Go("degenerate-dgram", func() {
+			simrt.SetNode(nd.Name)
+			ctx, cancel := context.WithTimeout(context.Background(), 20*time.Second)
+			defer cancel()
+			switch kind {
+			case "udp":
+				sid, err := nd.A.CreateUDPAssociation(ctx, nil)
+				if err != nil {
+					simrt.Failf("harness", "UDP association could not be created", "%v", err)
+				}
+				openErr = nd.A.RelayUDPDatagram(sid, &net.UDPAddr{IP: dst, Port: 53}, 53, protocol.AddrTypeIPv4, dst, canary)
+				simrt.Sleep(time.Second)
+				nd.A.CloseUDPAssociation(sid)
+			case "icmp-socks":
+				var sid uint64
+				sid, openErr = nd.A.CreateICMPSession(ctx, dst)
+				if openErr == nil {
+					nd.A.RelayICMPEcho(sid, 7, 1, canary)
+					simrt.Sleep(time.Second)
+					nd.A.CloseICMPSession(sid)
+				}
+			case "icmp-ping-api":
+				sess, err := nd.A.OpenICMPSession(ctx, rp.ID, dst)
+				openErr = err
+				if err == nil {
+					simrt.Chan(sess.SendEcho).Send(&health.ICMPEchoRequest{Identifier: 7, Sequence: 1, Payload: canary})
+					simrt.Sleep(time.Second)
+					sess.Close()
+				}
+			}
+		})
+		wantOpen := protocol.FrameUDPOpen
+		if kind != "udp" {
+			wantOpen = protocol.FrameICMPOpen
+		}
+		f, _ := rp.WaitFrame(from, 10*time.Second, func(f *protocol.Frame) bool { return f.Type == wantOpen })
+		if f == nil {
+			g.Wait()
+			simrt.Probe("c03_fake_exit_not_reached")
+			continue
+		}
+		if kind == "udp" {
+			uo, derr := protocol.DecodeUDPOpen(f.Payload)
+			if derr != nil {
+				simrt.Failf("harness", "crafted exit could not decode the open", "%v", derr)
+			}
+			ack := &protocol.UDPOpenAck{RequestID: uo.RequestID, BoundAddrType: protocol.AddrTypeIPv4, BoundAddr: []byte{10, 77, 0, 1}, BoundPort: 5555, EphemeralPubKey: key}
+			rp.Send(&protocol.Frame{Type: protocol.FrameUDPOpenAck, StreamID: f.StreamID, Payload: ack.Encode()})
+		} else {
+			io, derr := protocol.DecodeICMPOpen(f.Payload)
+			if derr != nil {
+				simrt.Failf("harness", "crafted exit could not decode the open", "%v", derr)
+			}
+			ack := &protocol.ICMPOpenAck{RequestID: io.RequestID, EphemeralPubKey: key}
+			rp.Send(&protocol.Frame{Type: protocol.FrameICMPOpenAck, StreamID: f.StreamID, Payload: ack.Encode()})
+		}
+		g.Wait()
+		if genuine {
+			simrt.Probe("c03_genuine_ack_control_" + kind)
+			if openErr != nil {
+				simrt.Failf("harness", "control: datagram tunnel answered with a genuine key failed", "%s: %v", kind, openErr)
+			}
+			continue
+		}
+		simrt.Probe("c03_degenerate_key_to_initiator_" + kind)
+		leaked := false
+		for _, rf := range rp.Received[from:] {
+			if (rf.Type == protocol.FrameUDPDatagram || rf.Type == protocol.FrameICMPEcho) && bytes.Contains(rf.Payload, canary) {
+				leaked = true
+			}
+		}
+		if openErr == nil || leaked {
+			simrt.Failf("degenerate-key-accepted", "initiator produced a usable tunnel from a degenerate remote key ("+kind+")", "ingress %s accepted an ack whose ephemeral key is %x: open error=%v, application bytes sent in the clear=%v", nd.Name, key[:4], openErr, leaked)
+		}
+	}
+	// (d) datagram tunnel kinds, responder side: crafted UDP_OPEN / ICMP_OPEN with a
+	// low-order key must be refused. (The all-zero value is these two protocols'
+	// "no key offered" marker on the responder side; nothing is derived from it.)
+	if target >= 0 && (m.Nodes[target].Cfg.UDP.Enabled || m.Nodes[target].Cfg.ICMP.Enabled) {
+		if rp2, err := m.AttachRawPeer(target, 4); err == nil {
+			for q := simrt.Choose(3, "dgramresp"); q > 0; q-- {
+				key := degenerateKeys[1+simrt.Choose(len(degenerateKeys)-1, "degen-nonzero")]
+				sid := uint64(3001 + 2*q)
+				from := len(rp2.Received)
+				var ackT, errT uint8
+				if m.Nodes[target].Cfg.ICMP.Enabled && (!m.Nodes[target].Cfg.UDP.Enabled || simrt.Chance(1, 2, "resp-icmp")) {
+					op := &protocol.ICMPOpen{RequestID: uint64(8100 + q), DestIP: []byte{10, byte(100 + target), 8, 200}, TTL: 1, EphemeralPubKey: key}
+					rp2.Send(&protocol.Frame{Type: protocol.FrameICMPOpen, StreamID: sid, Payload: op.Encode()})
+					ackT, errT = protocol.FrameICMPOpenAck, protocol.FrameICMPOpenErr
+					simrt.Probe("c03_degenerate_key_to_responder_icmp")
+				} else {
+					op := &protocol.UDPOpen{RequestID: uint64(8000 + q), AddressType: protocol.AddrTypeIPv4, Address: []byte{0, 0, 0, 0}, TTL: 1, EphemeralPubKey: key}
+					rp2.Send(&protocol.Frame{Type: protocol.FrameUDPOpen, StreamID: sid, Payload: op.Encode()})
+					ackT, errT = protocol.FrameUDPOpenAck, protocol.FrameUDPOpenErr
+					simrt.Probe("c03_degenerate_key_to_responder_udp")
+				}
+				f, _ := rp2.WaitFrame(from, 20*time.Second, func(f *protocol.Frame) bool { return f.StreamID == sid && (f.Type == ackT || f.Type == errT) })
+				if f != nil && f.Type == ackT {
+					simrt.Failf("degenerate-key-accepted", "responder acknowledged a tunnel opened with a degenerate remote key", "exit %s acked a datagram tunnel open (frame type %d) whose ephemeral key is %x", m.Nodes[target].Name, ackT, key[:4])
+				}
+				if h := m.Nodes[target].A.VerifUDPHandler(); h != nil && h.GetAssociation(sid) != nil {
+					simrt.Failf("degenerate-key-accepted", "responder keeps a connection record for a tunnel opened with a degenerate remote key", "exit %s udp stream %d", m.Nodes[target].Name, sid)
+				}
+				if h := m.Nodes[target].A.VerifICMPHandler(); h != nil && h.GetSession(sid) != nil {
+					simrt.Failf("degenerate-key-accepted", "responder keeps a connection record for a tunnel opened with a degenerate remote key", "exit %s icmp stream %d", m.Nodes[target].Name, sid)
+				}
+			}
+			rp2.Close()
+		}
+	}
 	rp.Close()
 }
 
@@ -545,6 +746,12 @@ func (ts *TunnelSet) checkDrained() {
 		}
 		if h := nd.A.VerifUDPHandler(); h != nil && h.ActiveCount() != 0 {
 			left += fmt.Sprintf(" udp.associations=%d", h.ActiveCount())
+		}
+		if h := nd.A.VerifICMPHandler(); h != nil && h.ActiveCount() != 0 {
+			left += fmt.Sprintf(" icmp.sessions=%d", h.ActiveCount())
+		}
+		if sk, ws := nd.A.VerifICMPSessionCounts(); sk != 0 || ws != 0 {
+			left += fmt.Sprintf(" icmp_ingress=%d icmp_ping_sessions=%d", sk, ws)
 		}
 		for _, k := range []string{"udp_ingress_base", "udp_ingress_local"} {
 			if n := nd.A.VerifBookkeepingSizes()[k]; n != 0 {
